@@ -47,6 +47,9 @@ PARTIAL = [
     "a client whose Protocol declares a header-less stream method the server does not have (unknown method): the server "
     "cannot know an input stream follows; open finding C04:desync:unknown-method-headerless-stream",
     "dropping a StreamSession without close()/cancel()/__exit__ is not a call ending the property lists (DESIGN 7.3)",
+    "the model's on_log failure is an exception that none of the client's own handlers claims; a callback raising a class the "
+    "client's control flow also uses (transport-error classes, OSError / StopIteration / ArrowInvalid during a drain) is the open "
+    "finding C04:desync:on-log-raises-control-class:* — generated and reported as KNOWN-FINDING, outside the theorems",
 ]
 RULE = (
     "single-fault (thorough: also double-fault) histories of length <= 3 (thorough <= 5): every fault plan x every position x "
@@ -100,6 +103,11 @@ def fillers(hdr_kind: str) -> list[tuple[str, list[list[Any]]]]:
 # ------------------------------------------------------------------------------------------ fault plans
 
 
+# exception classes for the raising on_log callback.  CONTROL = classes the clean client handles itself as "transport dead"
+# (`_TRANSPORT_ERRORS`) or "end of stream / stop draining" (`_drain_output`): see the open finding
+BOOM_CLASSES = ["ValueError", "OSError", "ArrowInvalid", "EOFError", "BrokenPipeError", "StopIteration", "RuntimeError", "KeyError"]
+CONTROL_CLASSES = {"ArrowInvalid", "EOFError", "BrokenPipeError", "ConnectionResetError", "ConnectionAbortedError", "OSError", "StopIteration"}
+
 # argument values the client cannot send for `a: int`
 BAD_ARGS: dict[str, Any] = {"str": "x", "big": 2**70, "none": None, "list": [1], "negbig": -(2**70)}
 
@@ -135,6 +143,10 @@ def fault_plans() -> list[dict[str, Any]]:
     sf = {"name": "f", "kind": "unary", "xret": "plain_int", "ptype": "str", "logs": [L("f0")]}
     add("unary/clientReject:surrogate", sf, {"name": "f", "kind": "unary", "xret": "plain_int", "ptype": "str"}, [["call", "f", "\ud800"]])
     add("unary/clientReject:int_for_str", sf, {"name": "f", "kind": "unary", "xret": "plain_int", "ptype": "str"}, [["call", "f", 5]])
+    # the CLASS of the exception the callback raises: classes the client's own control flow also uses
+    for cls in BOOM_CLASSES:
+        add(f"unary/onLogCls:{cls}:from@0", uf, cu, [["call", "f", 1]], pol=["from", 0, cls])
+        add(f"unary/onLogCls:{cls}:once@1", uf, cu, [["call", "f", 1]], pol=["once", 1, cls])
     add("unary/raises+onLogFrom@0", {**uf, "out": E}, cu, [["call", "f", 1]], pol=["from", 0])
 
     # ---- streams
@@ -196,6 +208,13 @@ def fault_plans() -> list[dict[str, Any]]:
                         add(f"{tag}/onLog{mode.capitalize()}@{k}/{an}", ok, cf, op() + aops, pol=[mode, k])
             for an in ("close+exit", "close+cancel"):
                 add(f"{tag}/initRaises+onLogFrom@0/{an}", {**ok, "init": E}, cf, op() + again[an], pol=["from", 0])
+            for cls in BOOM_CLASSES:
+                # classes of the open finding get a small witness set (each costs a deadline when the connection hangs)
+                sts = ("1+exit",) if cls in CONTROL_CLASSES else ("exit", "1+exit", "full")
+                for st in sts:
+                    for k in ((0,) if cls in CONTROL_CLASSES else (0, 2)):
+                        add(f"{tag}/onLogCls:{cls}:from@{k}/{st}", ok, cf, op() + styles[st], pol=["from", k, cls])
+                    add(f"{tag}/onLogCls:{cls}:once@0/{st}", ok, cf, op() + styles[st], pol=["once", 0, cls])
             # on_log raising: logs of a full run = init(2) + 3 x (pre 1 + post 1)
             for k in (0, 1, 2, 3, 4, 7):
                 for mode in ("once", "from"):
@@ -284,7 +303,7 @@ def model_args(case: dict[str, Any]) -> dict[str, Any]:
                "clientRejects": "/clientReject:" in c["plan"],
                "resultDecodes": cm[name].get("xret") in (None, "enum_known", "plain_int")}
         del server_m
-        pol = ["none"] if c["pol"] is None else c["pol"]
+        pol = ["none"] if c["pol"] is None else c["pol"][:2]
         if first[0] == "call":
             hist.append({"kind": "unary", "pol": pol, "req": req})
         else:
@@ -328,12 +347,20 @@ def split_ops(case: dict[str, Any], trace: list[list[Any]]) -> list[list[tuple[l
 
 def fault_key(case: dict[str, Any]) -> str:
     """Canonical class of a failing history: the first fault plan's family (position / filler independent)."""
+    # a history containing a callback of the open finding's classes is attributed to it, wherever it stands
+    for c in case["calls"]:
+        if "/onLogCls:" in c["plan"]:
+            cls = c["plan"].split("onLogCls:")[1].split(":")[0]
+            if cls in CONTROL_CLASSES:
+                return f"C04:desync:on-log-raises-control-class:{cls}"
     for c in case["calls"]:
         p = c["plan"]
         if not p.startswith("ok:") and p != "sentinel":
             parts = p.split("/")
             shape = "unary" if parts[0] == "unary" else "/".join(parts[:2])
             fam = (parts[1] if parts[0] == "unary" else parts[2]).split("@")[0]
+            if fam.startswith("onLogCls:") and fam.split(":")[1] in CONTROL_CLASSES:
+                return f"C04:desync:on-log-raises-control-class:{fam.split(':')[1]}"
             if fam == "unknownMethod" and shape.endswith("nohdr"):
                 return "C04:desync:unknown-method-headerless-stream"
             return f"C04:{shape}:{fam}"
@@ -351,6 +378,14 @@ def check_case(ctx: Any, case: dict[str, Any], transport: str, deadline: float =
     judge(ctx, case, transport, run_impl((case, transport, deadline)), deadline)
 
 
+def _fail(ctx: Any, rec: Any, key: str, what: str) -> None:
+    """At most a few failing inputs per key: the framework keeps a bounded list, a flood of one class must not crowd out another."""
+    seen = ctx.notes.setdefault("failures_per_key", {})
+    seen[key] = seen.get(key, 0) + 1
+    if seen[key] <= 4:
+        ctx.fail(rec, key, what)
+
+
 def judge(ctx: Any, case: dict[str, Any], transport: str, r: dict[str, Any], deadline: float = 6.0) -> None:
     plans = [c["plan"] for c in case["calls"]]
     rec = {"calls": case["calls"], "sdesc": case["sdesc"], "cdesc": case["cdesc"], "server_version": case["server_version"],
@@ -366,11 +401,11 @@ def judge(ctx: Any, case: dict[str, Any], transport: str, r: dict[str, Any], dea
     sent_ok = bool(sent_evs) and sent_evs[-1] == ["value", SENT] and [e for e in sent_evs if e[0] == "log"] == [["log", "INFO", "s.log", {}]]
     # ---- O: the property on the implementation
     if r["hung"]:
-        ctx.fail(rec, fam if fam.startswith("C04:desync") else fam + ":hung",
+        _fail(ctx, rec, fam if fam.startswith("C04:desync") else fam + ":hung",
                  f"{transport}: history {plans} did not complete within {deadline}s ({len(r['trace'])}/{len(script_of(case))} ops "
                  f"done) — a side is blocked on a read that is never satisfied")
     elif not sent_ok:
-        ctx.fail(rec, fam if fam.startswith("C04:desync") else fam + ":sentinel",
+        _fail(ctx, rec, fam if fam.startswith("C04:desync") else fam + ":sentinel",
                  f"{transport}: after {plans[:-1]} the sentinel call s() did not get its own response: {json.dumps(sent_evs)[:300]}")
     else:
         # every correct call that follows the first fault must behave as on a fresh connection
@@ -380,18 +415,22 @@ def judge(ctx: Any, case: dict[str, Any], transport: str, r: dict[str, Any], dea
                 want = expected_filler(c["plan"][3:], c["ops"])
                 got = [classify(op, evs) for op, evs in grp]
                 if got != want:
-                    ctx.fail(rec, fam + ":next-call", f"{transport}: filler {c['plan']} after a fault behaved {got}, expected {want}")
+                    _fail(ctx, rec, fam + ":next-call", f"{transport}: filler {c['plan']} after a fault behaved {got}, expected {want}")
                     break
             if not c["plan"].startswith("ok:"):
                 seen_fault = True
     # ---- K: model vs implementation
     if ctx.driver is None:
         return
+    if any("/onLogCls:" in c["plan"] and c["plan"].split("onLogCls:")[1].split(":")[0] in CONTROL_CLASSES for c in case["calls"]):
+        # the model's callback exception is one that none of the client's own handlers claims (open finding for the others)
+        ctx.tag("k-skipped:control-class-callback")
+        return
     m = ctx.driver.call("C04.run", model_args(case))
     mod_ops = [[o["res"] for o in c["outs"]] for c in m["calls"]]
     obs_ops = [[classify(op, evs) for op, evs in grp] for grp in groups]
     for c, ops in zip(case["calls"], obs_ops):
-        if "/decode:" in c["plan"] or "/clientReject:" in c["plan"]:
+        if "/decode:" in c["plan"] or "/clientReject:" in c["plan"] or "/onLogCls:" in c["plan"]:
             # whatever class the client's validation / decoding raises (TypeError, KeyError, ArrowInvalid wrapped as
             # TransportError): the model's "the caller got an exception that is not the server's"
             ops[:] = ["raised" if (o.startswith("raised") or o == "transport") else o for o in ops]
